@@ -55,14 +55,14 @@ META = {
         "level_note": "Compaction timing is Pebble's; block size/flush are the production settings of kv_pebble.go.",
     },
     "C12": {
-        "engine": "kvx", "technique": "model-based property testing (rapid state machine vs sequential reference model)",
+        "engine": "kvx+e2ex", "technique": "model-based property testing (rapid state machine vs sequential reference model), at database level and end to end through the real client and a real standalone server",
         "design_ref": "DESIGN.md 4.2, 5 C12",
         "level_text": "Thousands of generated request histories applied to the real database and checked response by response and "
                       "read by read against an executable sequential specification.",
         "level_note": "DB level (the callback chain leader and follower share); leader-level dispatch is covered by the leaderx checks.",
     },
     "C13": {
-        "engine": "kvx", "technique": "property-based testing with structured hostile-input generators + differential between two replicas",
+        "engine": "kvx+leaderx", "technique": "property-based testing with structured hostile-input generators (incl. non-UTF-8 strings, ranges spanning the reserved prefix) + differential between two replicas + crash-replay of hostile requests through the real leader",
         "design_ref": "DESIGN.md 4.2, 5 C13",
         "level_text": "Generated requests covering everything a client can encode are applied to two real databases; any "
                       "infrastructure error, missing status or divergence is a violation. Four listed findings (invalid sequence "
@@ -78,21 +78,21 @@ META = {
         "level_note": "DB level; liveness only in the bounded form 'at quiescence'.",
     },
     "C17": {
-        "engine": "kvx", "technique": "model-based property testing (net-effect oracle over stored notification batches)",
+        "engine": "kvx+leaderx+clientx+e2ex", "technique": "model-based property testing (net-effect oracle over stored notification batches); stateful testing of the leader's notification streams and of the client's notification manager with reconnects; end-to-end run",
         "design_ref": "DESIGN.md 4.2, 5 C17",
         "level_text": "Generated write histories; each stored batch compared with the model's net effect; resumable reads and "
                       "retention-bounded trimming under an injected clock.",
         "level_note": "DB level in this check; one listed finding (key entry replaced by a range entry with the same start key).",
     },
     "C08": {
-        "engine": "leaderx", "technique": "concurrent property testing with schedule perturbation + model-based state machine on the ack tracker",
+        "engine": "leaderx+e2ex", "technique": "concurrent property testing with schedule perturbation + model-based state machine on the ack tracker + pipelined real client against a real standalone server",
         "design_ref": "DESIGN.md 4.3, 5 C08",
         "level_text": "Generated writer populations against a real leader with injected delays at the allocation/append boundary, "
                       "and tens of thousands of tracker histories against the reference commit rule.",
         "level_note": "Real goroutines: schedules are perturbed, not enumerated. One listed finding (RF=1 tracker initial commit offset).",
     },
     "C14": {
-        "engine": "leaderx", "technique": "model-based property testing with a gate on the session cleanup's key listing",
+        "engine": "leaderx+e2ex", "technique": "model-based property testing with a gate on the session cleanup's key listing; real-timer expiry scenarios; real client sessions against a real standalone server",
         "design_ref": "DESIGN.md 4.3, 5 C14",
         "level_text": "Generated session/write/leader-change histories on a real leader; ownership model compared with a full dump "
                       "after every session end. One listed finding (cleanup deletes a record taken over after the listing), "
@@ -100,7 +100,7 @@ META = {
         "level_note": "Expiry timing needs real 2 s timers and is exercised separately when built; hangs are inconclusive.",
     },
     "C15": {
-        "engine": "leaderx", "technique": "model-based property testing (index entries derived from live records vs sorted reference)",
+        "engine": "leaderx+e2ex", "technique": "model-based property testing (index entries derived from live records vs sorted reference), at leader level and end to end through the real client",
         "design_ref": "DESIGN.md 4.3, 5 C15",
         "level_text": "Generated write histories with neighbouring index names; every index query path compared with a sorted "
                       "reference restricted to that index.",
@@ -131,13 +131,13 @@ META = {
         "level_note": "Real goroutines and real 100 ms/1 s coordinator timers: schedules are explored, not enumerated; node crashes are graceful stops here.",
     },
     "C05": {
-        "engine": "clusterx", "technique": "stateful property-based testing with injected faults over an in-process cluster (history-based oracles)",
+        "engine": "clusterx+leaderx+coordx", "technique": "stateful property-based testing with injected faults over an in-process cluster (history-based oracles); fault enumeration of process-kill points (byte-copy kill image after NewTerm; strace-injected SIGKILL at the k-th system call of the metadata file provider)",
         "design_ref": "DESIGN.md 4.4, 5 C05",
         "level_text": 'Same engine; election safety checked on the recorded coordinator events and node answers.',
         "level_note": "Real goroutines and real 100 ms/1 s coordinator timers: schedules are explored, not enumerated; node crashes are graceful stops here.",
     },
     "C20": {
-        "engine": "clientx", "technique": "property-based testing of the real client against scripted fake servers (differential: per-operation answer function)",
+        "engine": "clientx+e2ex", "technique": "property-based testing of the real client against scripted fake servers (differential: per-operation answer function), incl. held answers and abandoned fan-out; end-to-end run against a real standalone server with the reference model",
         "design_ref": "DESIGN.md 4.6, 5 C20",
         "level_text": "Generated call streams, batching configurations, per-shard timings and error placements against the "
                       "unmodified client library over loopback gRPC; each result checked against the answer function of its own operation.",
@@ -164,7 +164,7 @@ META = {
         "level_note": "The fold uses the real ProcessWrite; notification records compared decoded (map serialization order is not deterministic).",
     },
     "C07": {
-        "engine": "leaderx", "technique": "fault-injecting property-based testing (crash image after the k-th batch commit, restart and replay) against a reference fold",
+        "engine": "leaderx", "technique": "fault-injecting property-based testing against a reference fold: logical crash image after the k-th batch commit, and physical kill image (byte copy of the node's directories) with log trimming under an injected clock",
         "design_ref": "DESIGN.md 4.3, 5 C07",
         "level_text": "Generated runs with concurrent writers; crash images at drawn commit points compared with the fold of the log prefix, and the restarted node with the fold of the whole log.",
         "level_note": "Commit-granular crash points; Pebble's internal atomicity and the page cache are trusted.",
